@@ -47,7 +47,7 @@ func typedFilter(r *rand.Rand, values val.Item, tag string) *refmodel.Cond {
 	}
 	var leaf func() *refmodel.Cond
 	leaf = func() *refmodel.Cond {
-		switch r.Intn(9) {
+		switch r.Intn(11) {
 		case 0:
 			return &refmodel.Cond{Op: "cmp", Cmp: mon.Pick(r, []string{"<", "<=", ">", ">=", "=", "<>"}), Args: []refmodel.Operand{path("v"), newVal(val.Num(fmt.Sprint(r.Intn(30))))}}
 		case 1:
@@ -68,8 +68,35 @@ func typedFilter(r *rand.Rand, values val.Item, tag string) *refmodel.Cond {
 			return &refmodel.Cond{Op: "between", Args: []refmodel.Operand{path("v"), newVal(val.Num(fmt.Sprint(a))), newVal(val.Num(fmt.Sprint(b)))}}
 		case 7:
 			return &refmodel.Cond{Op: "contains", Args: []refmodel.Operand{path("r"), newVal(val.Str(mon.Pick(r, []string{"a", "b", "1", "0"})))}}
-		default:
+		case 8:
 			return &refmodel.Cond{Op: "type", Args: []refmodel.Operand{path(mon.Pick(r, []string{"g", "v"})), newVal(val.Str(mon.Pick(r, []string{"S", "N"})))}}
+		default:
+			// two document paths under ONE top-level attribute related to each other (different paths: different operands)
+			deep := func(els ...interface{}) refmodel.Operand {
+				p := refmodel.Path{}
+				for _, e := range els {
+					switch t := e.(type) {
+					case string:
+						p = append(p, refmodel.PathEl{Name: t})
+					case int:
+						p = append(p, refmodel.PathEl{IsIdx: true, Idx: t})
+					}
+				}
+				if r.Intn(4) == 0 {
+					p[0].Alias = "#f" + p[0].Name
+				}
+				return refmodel.Operand{Kind: "path", Path: p}
+			}
+			switch r.Intn(4) {
+			case 0:
+				return &refmodel.Cond{Op: "cmp", Cmp: mon.Pick(r, []string{"<", "<=", ">", ">=", "=", "<>"}), Args: []refmodel.Operand{deep("w", "lo"), deep("w", "hi")}}
+			case 1:
+				return &refmodel.Cond{Op: "cmp", Cmp: mon.Pick(r, []string{"<", ">=", "=", "<>"}), Args: []refmodel.Operand{deep("pl", 0), deep("pl", 1)}}
+			case 2:
+				return &refmodel.Cond{Op: "between", Args: []refmodel.Operand{deep("w", "lo"), deep("pl", 0), deep("w", "hi")}}
+			default:
+				return &refmodel.Cond{Op: "in", Args: []refmodel.Operand{deep("w", "hi"), deep("w", "lo"), deep("pl", 1), newVal(val.Num("3"))}}
+			}
 		}
 	}
 	not := func(c *refmodel.Cond) *refmodel.Cond { return &refmodel.Cond{Op: "not", Kids: []*refmodel.Cond{c}} }
